@@ -1,6 +1,6 @@
 ------------------------------ MODULE MC_VEcu ------------------------------
 (* Small exhaustive model of the virtual ECU: 3 sessions, one service of every
-   shape (plain: ReadDataByIdentifier, WriteDataByIdentifier; sub-function:
+   shape (plain: ReadDataByIdentifier, WriteDataByIdentifier, ReadMemoryByAddress (no handler); sub-function:
    DiagnosticSessionControl, TesterPresent, ECUReset; specialised sub-function:
    SecurityAccess; RoutineControl), every structural request class, every subset
    of the nine behaviour switches.  Service ids are the real ISO ones so that the
@@ -12,7 +12,7 @@ Sf(subs) == [sf |-> TRUE,  subs |-> subs]
 Plain    == [sf |-> FALSE, subs |-> {}]
 
 MCM ==
-  (1 :> (16 :> Sf({1, 2, 3}) @@ 62 :> Sf({0}) @@ 34 :> Plain)) @@
+  (1 :> (16 :> Sf({1, 2, 3}) @@ 62 :> Sf({0}) @@ 34 :> Plain @@ 35 :> Plain)) @@
   (2 :> (16 :> Sf({1, 2})    @@ 62 :> Sf({0}) @@ 34 :> Plain @@ 39 :> Sf({1, 2})
          @@ 49 :> Sf({1, 2, 3}) @@ 17 :> Sf({1, 4}))) @@
   (3 :> (16 :> Sf({1, 3})    @@ 39 :> Sf({1, 2, 3, 4}) @@ 46 :> Plain))
@@ -45,9 +45,13 @@ MCReqSeq == <<
   \* WriteDataByIdentifier
   R(<<46, 18, 52, 86>>, TRUE), R(<<46, 18>>, FALSE),
   \* services in no session: sub-function shaped, plain, not a UDS service at all
-  R(<<40, 1, 1>>, TRUE), R(<<40, 129, 1>>, TRUE), R(<<20, 255, 255, 255>>, TRUE), R(<<186, 1>>, FALSE)
+  R(<<40, 1, 1>>, TRUE), R(<<40, 129, 1>>, TRUE), R(<<20, 255, 255, 255>>, TRUE), R(<<186, 1>>, FALSE),
+  \* a plain service for which the server has no handler (ReadMemoryByAddress): generalReject / silence
+  R(<<35, 17, 32, 4>>, TRUE), R(<<35, 17>>, FALSE)
 >>
 
+\* one request per structural class (indices into MCReqSeq), for the 2^9-subset run of the quick tier
+MCReqSeqSmall == [k \in 1..23 |-> MCReqSeq[<<1, 3, 8, 9, 11, 12, 14, 15, 18, 19, 20, 23, 24, 25, 26, 28, 30, 35, 36, 39, 40, 45, 50>>[k]]]
 AllOn == Rules
 BFamAll == SUBSET Rules
 \* quick export family: everything on, exactly one off, exactly one on, nothing on, some mixed sets
@@ -55,6 +59,11 @@ BFamExport == {Rules, {}} \cup {Rules \ {r} : r \in Rules} \cup {{r} : r \in Rul
               \cup {Rules \ {"msf", "sfns"}, Rules \ {"sns", "fmt"}, Rules \ {"sc", "sr", "tp"},
                     Rules \ {"none", "supp"}, {"sc", "supp"}, {"sns", "sfns", "none"},
                     Rules \ {"sns", "msf", "sfns", "fmt"}}
+\* spec -> code: the export configs print the model and the request list once, so that the
+\* harness has no copy of its own
+ASSUME Export => /\ \A i \in 1..Len(ReqSeq) : PrintT(<<"Q", i, ReqSeq[i].b, ReqSeq[i].p, ReqSeq[i].key>>)
+                 /\ \A s \in DOMAIN M : \A sid \in DOMAIN M[s] :
+                        PrintT(<<"M", s, sid, M[s][sid].sf, M[s][sid].subs>>)
 BFamDefault == {Rules}
 \* "disabling one behaviour": everything on, and exactly one off
 BFamOneOff == {Rules} \cup {Rules \ {r} : r \in Rules}
